@@ -619,6 +619,44 @@ Proof.
     replace (Nat.eqb k s1) with false by (symmetry; apply Nat.eqb_neq; exact M1).
     replace (Nat.eqb k sm) with false by (symmetry; apply Nat.eqb_neq; exact Mm). reflexivity.
 Qed.
+
+(* ---------------------------------------------------------------- Axle::new (C16): the MaybeUninit array of terminals *)
+(* `Axle::new` builds its array of terminals in a `[MaybeUninit<..>; N]`, writes every slot in a loop and then reads the whole
+   array as initialised through a pointer cast.  For every N: the read never meets an unwritten slot (the outcome is never
+   undefined behaviour) and the axle starts with N fresh, unconnected terminals. *)
+Definition TERM0 : @mval F :=
+  MRec [("other", MNone); ("settable_data_command", MRec [("following", MNone); ("last_request", MNone)]);
+        ("settable_data_state", MRec [("following", MNone); ("last_request", MNone)])].
+Definition b_fill : @mexpr F := ltac:(let t := eval cbv delta [g_axle_new] beta in (g_axle_new c : @mexpr F) in
+  match t with ELet _ _ (ESeq (EForMut _ _ ?b) _) => exact b end).
+Definition p_after_fill : @mexpr F := ltac:(let t := eval cbv delta [g_axle_new] beta in (g_axle_new c : @mexpr F) in
+  match t with ELet _ _ (ESeq _ ?b) => exact b end).
+Lemma axle_new_shape : g_axle_new c = ELet (PVar "inputs") (EArrUninit (EVar "N")) (ESeq (EForMut "i" (LVar "inputs") b_fill) p_after_fill).
+Proof. reflexivity. Qed.
+Lemma fill_body (it : @mval F) en : flatten (eval c b_fill (("i", it) :: en)) = Ok (ONorm MTup0 (("i", TERM0) :: en)).
+Proof. reflexivity. Qed.
+Lemma Forall2_repeat {A B} (R : A -> B -> Prop) a b n : R a b -> Forall2 R (repeat a n) (repeat b n).
+Proof. intros H. induction n; cbn [repeat]; constructor; assumption. Qed.
+Lemma no_uninit_repeat n : existsb (fun x : @mval F => match x with MUninit => true | _ => false end) (repeat TERM0 n) = false.
+Proof. induction n; [reflexivity|]. cbn [repeat existsb]. exact IHn. Qed.
+Theorem C16_gen_axle_new (n : nat) :
+  flatten (eval c (g_axle_new c) [("N", MV (VI (Z.of_nat n)))])
+  = Ok (ONorm (MRec [("inputs", MArr (repeat TERM0 n))]) [("N", MV (VI (Z.of_nat n)))]).
+Proof.
+  rewrite axle_new_shape, flatten_let.
+  assert (H0 : flatten (eval c (EArrUninit (EVar "N")) [("N", MV (VI (Z.of_nat n)))])
+               = Ok (ONorm (MArr (repeat MUninit n)) [("N", MV (VI (Z.of_nat n)))])).
+  { cbn -[Z.of_nat Z.to_nat repeat]. rewrite Nat2Z.id. reflexivity. }
+  rewrite H0. cbn [after]. rewrite flatten_seq.
+  erewrite flatten_formut by reflexivity.
+  erewrite for_mut_rel; [|apply (Forall2_repeat _ MUninit TERM0); apply fill_body].
+  cbn [lval_set update String.eqb Ascii.eqb Bool.eqb rev app after].
+  unfold p_after_fill. rewrite flatten_let.
+  assert (H1 : flatten (eval c (EAssumeInitAll (EVar "inputs")) [("inputs", MArr (repeat TERM0 n)); ("N", MV (VI (Z.of_nat n)))])
+               = Ok (ONorm (MArr (repeat TERM0 n)) [("inputs", MArr (repeat TERM0 n)); ("N", MV (VI (Z.of_nat n)))])).
+  { cbn -[Z.of_nat repeat existsb]. rewrite no_uninit_repeat. reflexivity. }
+  rewrite H1. cbn [after]. reflexivity.
+Qed.
 End C08Devices.
 Print Assumptions C08_gen_invert_update.
 Print Assumptions invert_update_local.
@@ -664,3 +702,8 @@ Print Assumptions existsb_in.
 Print Assumptions existsb_notin.
 Print Assumptions C08_axle_end_to_end.
 Print Assumptions C08_diff_end_to_end.
+Print Assumptions axle_new_shape.
+Print Assumptions fill_body.
+Print Assumptions Forall2_repeat.
+Print Assumptions no_uninit_repeat.
+Print Assumptions C16_gen_axle_new.
